@@ -37,6 +37,9 @@ ALPHABET = (
     + [("add", "", "m2"), ("remove", ""), ("setcur", "")]
     # two symbols that differ in nothing but the case of a letter are two units (millimetre, megametre)
     + [("setdefault", "a", "length", "Mm"), ("convert", "length", "mm", 5.0)]
+    # an amount typed as an int is re-expressed like its float twin (150 cm are 1.5 m); systems registered under ids the manager
+    # proposes itself (GetNewId), and removed again out of order
+    + [("convert", "length", "cm", 150), ("add-generated", "m1"), ("remove-generated", 0)]
     + [("remove", i) for i in ("a", "b", "z")]
     + [("setcur", i) for i in ("a", "b", None)]
     + [("template", t) for t in ("t1", "t2", "t3")]
@@ -86,6 +89,7 @@ class Run:
         self.m.on_unit_changed.Register(self._on_unit)
         self.shared = {"length": "m", "time": "s"}  # one dict handed to several AddUnitSystem calls
         self.objects = {}  # id -> unit system object as returned by AddUnitSystem (kept like a client would)
+        self.generated = []  # ids that GetNewId proposed and that were used
         self.ghosts = {}  # id -> the object that was registered under that id and has been removed (a new one may bear the id now)
         self.pushed = 0
 
@@ -132,7 +136,23 @@ class Run:
         problems = []
         err = None
         try:
-            if k == "add":
+            if k == "add-generated":
+                nid = m.GetNewId()
+                mp = self.mapping(act[1])
+                exp = M.add(nid, None if mp is None else dict(mp))
+                if nid in M.systems and exp != "ok":
+                    problems.append(("GetNewId-returned-an-id-in-use", {"id": nid, "registered": list(m.GetUnitSystems())}))
+                s = m.AddUnitSystem(nid, nid.upper(), mp)
+                self.objects[nid] = s
+                self.generated.append(nid)
+            elif k == "remove-generated":
+                live = [g for g in self.generated if g in M.systems]
+                target = live[act[1] % len(live)] if live else "no generated id"
+                exp = M.remove(target)
+                m.RemoveUnitSystem((target + "x")[:-1])
+                if target in self.objects:
+                    self.ghosts[target] = self.objects.pop(target)
+            elif k == "add":
                 mp = self.mapping(act[2])
                 exp = M.add(act[1], None if mp is None else dict(mp))
                 s = m.AddUnitSystem(act[1], act[1].upper(), mp, read_only=True) if act[3:] == ("readonly",) else m.AddUnitSystem(act[1], act[1].upper(), mp)
@@ -347,7 +367,7 @@ def random_history(r, n):
         elif r.random() < 0.25:
             acts.append(r.choice([("ghost-setdefault", r.choice(ids), "length", "km"), ("ghost-removecat", r.choice(ids), "time"), ("pushdb",), ("popdb",), ("readonly", r.choice(ids), True)]))
         else:
-            acts.append(r.choice([("convert", "length", "mm", 2.0), ("convert", "length", "Mm", 2.0), ("convert", "length", "m", 5.0), ("convert", "length", "cm", 7.0), ("convert", "time", "s", 3.0), ("convert", "mass", "kg", 2.0), ("convert", "time", "min", 0.5)]))
+            acts.append(r.choice([("convert", "length", "cm", 150), ("convert", "time", "s", 90), ("add-generated", "m1"), ("add-generated", "none"), ("remove-generated", 0), ("remove-generated", 1), ("convert", "length", "mm", 2.0), ("convert", "length", "Mm", 2.0), ("convert", "length", "m", 5.0), ("convert", "length", "cm", 7.0), ("convert", "time", "s", 3.0), ("convert", "mass", "kg", 2.0), ("convert", "time", "min", 0.5)]))
     return acts
 
 
